@@ -572,6 +572,7 @@ func main() {
 		sb.WriteString(body)
 		sb.WriteString("\n")
 		sb.WriteString(feeDefs(*repo))
+		sb.WriteString(guardDefs(*repo))
 		sb.WriteString("end Gen\n")
 		text = sb.String()
 	}()
